@@ -494,6 +494,36 @@ func c16r3(c *Ctx) {
 			if !ok {
 				continue
 			}
+			// a table decoded in place: the field's address handed to the map decoder
+			for _, rr := range *fa.Referrers() {
+				mi, ok := rr.(*ssa.MakeInterface)
+				if !ok || mi.Referrers() == nil {
+					continue
+				}
+				for _, r3 := range *mi.Referrers() {
+					dc, ok := r3.(*ssa.Call)
+					if !ok || !strings.HasSuffix(CalleeName(dc), "mapstructure.Decode") || len(dc.Call.Args) < 2 || dc.Call.Args[1] != ssa.Value(mi) {
+						continue
+					}
+					nf++
+					base := ce.Term(fa)
+					construct := "result." + fieldName(fa.X.Type(), fa.Field) + " decoded in place"
+					_, cut1 := ce.CutAt(r, zeroCheck(base), nil)
+					decoded := func(f Fact) bool {
+						return !f.Lin && f.Pos && f.Call == ssa.CallInstruction(dc) && strings.HasPrefix(f.Atom, "ok:")
+					}
+					_, cut2 := ce.CutAt(r, decoded, nil)
+					if cut1 && cut2 {
+						c.OK(rule, FuncName(create), construct, c.P.InstrPos(dc), "decoded successfully into the fresh result and passed the zero-field check")
+					} else {
+						d := "a schedule with a zero or missing entry in this table is accepted"
+						if !cut2 {
+							d = "the decode error of this table is not checked"
+						}
+						c.Fail(rule, "violation", FuncName(create), construct, c.P.InstrPos(dc), d)
+					}
+				}
+			}
 			for _, rr := range *fa.Referrers() {
 				st, ok := rr.(*ssa.Store)
 				if !ok {
@@ -725,7 +755,15 @@ func chargedOnSuccess(p *Prog, e *Env, costTerm string, x entryCtx, relay bool, 
 		for _, in := range b.Instrs {
 			if call, ok := in.(*ssa.Call); ok {
 				for _, a := range call.Call.Args {
-					if e.Term(a) == costTerm && isUnsignedT(call.Type()) {
+					unsignedRes := isUnsignedT(call.Type())
+					if tup, ok := call.Type().(*types.Tuple); ok {
+						for i := 0; i < tup.Len(); i++ {
+							if isUnsignedT(tup.At(i).Type()) {
+								unsignedRes = true // (remaining, enough) = helper(snd, GasProvided, cost)
+							}
+						}
+					}
+					if e.Term(a) == costTerm && unsignedRes {
 						// the result must flow into every GasRemaining store that follows: accept the call as the charge point
 						chargeBlocks[b] = "charge computed by " + call.Call.Value.Name() + " at " + p.InstrPos(in)
 					}
